@@ -98,3 +98,62 @@ package server
 //@   ensures (forall i :: 0 <= i && i < len(old(ch.channels)) ==> protocol != "/"+old(ch.channels)[i].Name()) ==> err != nil && G_opens() == old(G_opens())    :no_outbound_on_refusal
 //@   loop 1 vars iter int, rng Channels
 //@   loop 1 invariant G_opens() == old(G_opens()) && (forall j :: 0 <= j && j < iter ==> protocol != "/"+rng[j].Name())
+
+// ===================================================================================================
+// C18: address schemes select the documented kind of endpoint, or are rejected
+//@ pred httpServerScheme(s string) := s == "http" || s == "https" || s == "ws" || s == "wss" || s == "http+tls" || s == "ws+tls"
+//@ pred ioServerScheme(s string) := s == "stdin" || s == "stdin+tls" || s == "stdio" || s == "stdio+tls"
+//@ pred socketServerScheme(s string) := s == "tcp" || s == "unix" || s == "unixpacket" || s == "tcp+tls" || s == "unix+tls" || s == "unixpacket+tls"
+//@ pred packetServerScheme(s string) := s == "udp" || s == "udp4" || s == "udp6" || s == "unixgram"
+//@ pred dnsServerScheme(s string) := s == "dns" || s == "dns+udp" || s == "dns+tcp" || s == "dns+tcp+tls"
+// the schemes the README documents for `address`
+//@ pred documentedServerScheme(s string) := s == "http" || s == "https" || s == "tcp" || s == "tcp+tls" || s == "stdin" || s == "stdin+tls" || s == "unix" || s == "unix+tls" || s == "udp" || s == "unixpacket" || s == "dns+udp" || s == "dns+tcp"
+
+//@ func unmarshalServer
+//@   property C18
+//@   safe
+//@   ensures err == nil ==> result != nil                                                             :server_or_error
+//@   ensures err != nil ==> result == nil                                                             :no_server_on_error
+//@   callsite NewHttpServer#1 (srv *HttpServer, address *addr.ProtoAddress) assert httpServerScheme(address.Scheme)          :websocket_server_only_for_web_schemes
+//@   callsite NewIoServer#1 (srv *IoServer, address *addr.ProtoAddress) assert ioServerScheme(address.Scheme)                :stdio_server_only_for_stdio_schemes
+//@   callsite NewSocketServer#1 (srv *SocketServer, address *addr.ProtoAddress) assert socketServerScheme(address.Scheme)    :socket_server_only_for_socket_schemes
+//@   callsite NewPacketServer#1 (srv *PacketServer, address *addr.ProtoAddress) assert packetServerScheme(address.Scheme)    :packet_server_only_for_datagram_schemes
+//@   callsite NewDnsServer#1 (srv *DnsServer, address *addr.ProtoAddress) assert dnsServerScheme(address.Scheme)             :dns_server_only_for_dns_schemes
+//@   callsite errors.Errorf#2 (e error, address *addr.ProtoAddress) assert !documentedServerScheme(address.Scheme)           :documented_scheme_never_rejected
+
+//@ go func isSocksChannel(c Channel) bool { _, ok := c.(*SocksChannel); return ok }
+//@ go func isNetworkChannel(c Channel) bool { _, ok := c.(*NetworkChannel); return ok }
+//@ func unmarshalChannel
+//@   property C18
+//@   safe
+//@   ensures err == nil ==> result != nil                                                             :channel_or_error
+//@   ensures err != nil ==> result == nil                                                             :no_channel_on_error
+//@   callsite json.Marshal#1 (data []byte, e error, address *addr.ProtoAddress, channel Channel) assert (address.Scheme == "socks") == isSocksChannel(channel)     :socks_channel_exactly_for_socks
+//@   callsite json.Marshal#1 (data []byte, e error, address *addr.ProtoAddress, channel Channel) assert (address.Scheme == "tcp" || address.Scheme == "unix" || address.Scheme == "unixpacket") == isNetworkChannel(channel)     :network_channel_exactly_for_stream_sockets
+//@   callsite errors.Errorf#3 (e error, address *addr.ProtoAddress) assert address.Scheme != "socks" && address.Scheme != "tcp" && address.Scheme != "unix" && address.Scheme != "unixpacket"    :documented_scheme_never_rejected
+
+//@ func NewHttpServer
+//@   property C18
+//@   safe
+//@   pure
+//@   ensures result != nil && spec_fresh(result)
+//@ func NewIoServer
+//@   property C18
+//@   safe
+//@   pure
+//@   ensures result != nil && spec_fresh(result)
+//@ func NewSocketServer
+//@   property C18
+//@   safe
+//@   pure
+//@   ensures result != nil && spec_fresh(result)
+//@ func NewPacketServer
+//@   property C18
+//@   safe
+//@   pure
+//@   ensures result != nil && spec_fresh(result)
+//@ func NewDnsServer
+//@   property C18
+//@   safe
+//@   pure
+//@   ensures result != nil && spec_fresh(result)
